@@ -184,7 +184,7 @@ func runLinksL1(m *mp.Model, r *rng.R, n int, out *res.Result) error {
 		doc := document.Document{Pages: pages}
 		var gotL [][]document.Link
 		var gotA [][]backend.Anchor
-		oc := render.Guard(10*time.Second, func() { gotL, gotA = doc.VerifResolveLinks() })
+		oc := render.Guard(0, func() { gotL, gotA = doc.VerifResolveLinks() }) // pure, bounded loops: no wall-clock limit (machine load)
 		req := sx.L(sx.A("resolve"), listX(maps), listX(linkReq))
 		key := req.String()
 		out.Count(key, np >= 2)
@@ -297,7 +297,7 @@ func runBookmarksL1(m *mp.Model, r *rng.R, n int, out *res.Result) error {
 		}
 		doc := document.Document{Pages: ps}
 		var tree []backend.BookmarkNode
-		oc := render.Guard(10*time.Second, func() { tree = doc.VerifMakeBookmarkTree() })
+		oc := render.Guard(0, func() { tree = doc.VerifMakeBookmarkTree() }) // pure, bounded loops: no wall-clock limit (machine load)
 		req := sx.L(append([]sx.X{sx.A("bookmarks")}, intsX(levels)...)...)
 		key := req.String()
 		out.Count(key, k >= 2)
